@@ -21,9 +21,38 @@ func TestVerifReplayC13(t *testing.T) {
 	}
 	var sc struct {
 		Args   []int64                `json:"args"`
+		Label  string                 `json:"label"`
 		Inputs map[string]interface{} `json:"inputs"`
 	}
 	json.Unmarshal(data, &sc)
+	if strings.Contains(sc.Label, "killed-shortly-after-its-deadline") {
+		// a child that ignores the interrupt and would end on its own after 4 s: with the library's
+		// default handling it is killed about 2 s after the 300 ms deadline and the task fails
+		dir := t.TempDir()
+		marker := filepath.Join(dir, "second-command-ran")
+		d := 300 * time.Millisecond
+		def := &taskDefinition{Name: "tk", Timeout: &d, Command: []string{
+			`sh -c 'trap "" INT; sleep 4'`,
+			"touch " + marker,
+		}}
+		tk, err := buildTask(def, &loaderContext{Dir: dir})
+		if err != nil {
+			t.Fatal(err)
+		}
+		r, _ := runner.NewTaskRunner()
+		r.Stdout, r.Stderr = &strings.Builder{}, &strings.Builder{}
+		start := time.Now()
+		rerr := r.Run(tk)
+		took := time.Since(start)
+		_, statErr := os.Stat(marker)
+		fmt.Printf("REPLAY: stubborn child under a 300 ms timeout: Run returned %v after %v, second command ran: %v\n", rerr, took.Round(10*time.Millisecond), statErr == nil)
+		if rerr == nil || statErr == nil || took > 3500*time.Millisecond {
+			fmt.Println("REPLAY: reproduced: a command that overran its timeout was not terminated shortly afterwards (it lived on, the task did not fail or the next command started)")
+		} else {
+			fmt.Println("REPLAY: not-reproduced (the overrunning command was killed and the task failed)")
+		}
+		return
+	}
 	num := func(k string) float64 { f, _ := sc.Inputs[k].(float64); return f }
 	withTimeout, nv := sc.Args[0] == 1, int(sc.Args[1])
 	allow, _ := sc.Inputs["allow_failure"].(bool)
